@@ -804,7 +804,8 @@ def run_large(ctx, seqs_override=None):
     if seqs_override is not None:
         seqs = [list(x) for x in seqs_override]
     else:
-        targets = [2 ** 16 + 200] * ctx.n(2, 4) + [2 ** 17 + 200] * ctx.n(0, 2)
+        # quick: one sequence crossing 2^16 stored entries and one crossing 2^17 (more than 10^5 pushes on one scheduler)
+        targets = [2 ** 16 + 200] * ctx.n(1, 4) + [2 ** 17 + 200] * ctx.n(1, 2)
         seqs = [gen_large(ctx.rng, t) for t in targets]
     t1 = time.time()
     outs, metas, crashes, tdrv = run_impl(ctx, seqs, 1)
